@@ -126,9 +126,8 @@ fn run_one(s: &S01, word: Wd, backend: &WrBackend, ctx: &mut Ctx) {
                         ctx.ev(k as u64);
                         model.push_bits(e, v, *n);
                         ctx.progressed = true;
-                        if k != *n {
-                            return ctx.fail("C01.return_value", format!("op #{} write_bits(_, {}) returned {}", i, n, k));
-                        }
+                        // (the returned length is not part of this property: C06 owns it)
+                        let _ = k;
                     }
                     Err(er) => return ctx.fail("C01.spurious_error", format!("op #{} write_bits failed on a fault-free backend: {}", i, er)),
                 }
@@ -163,9 +162,7 @@ fn run_one(s: &S01, word: Wd, backend: &WrBackend, ctx: &mut Ctx) {
                         ctx.ev(k as u64);
                         model.push_unary(*x);
                         ctx.progressed = true;
-                        if k as u64 != x + 1 {
-                            return ctx.fail("C01.return_value", format!("op #{} write_unary({}) returned {}", i, x, k));
-                        }
+                        let _ = k;
                     }
                     Err(er) => return ctx.fail("C01.spurious_error", format!("op #{} write_unary failed on a fault-free backend: {}", i, er)),
                 }
